@@ -93,6 +93,7 @@ def run(ctx):
         ctx.case(("corpus", p))
         if not replay(ctx, data):
             ctx.violation("corpus case %s fails" % os.path.basename(p), data)
+    ctx.synth_filter = lambda f: "C03" not in f["what"]      # LostCode content/location is C03's clause
     n = ctx.budget(100, 3000)
     for i in range(n):
         fail, nt = synth.run_case(ctx, ctx.rng, "abs")
